@@ -359,4 +359,18 @@ def run_cases(harness, cases, asan=False, per_case_timeout=60, jobs=16, env=None
                 allc.update(cs)
                 if crash:
                     crashes.append(crash)
+    # a time limit hit while 16 chunks share the machine (and whatever else runs on it) says nothing about the library yet:
+    # every such case gets a second run ALONE with four times the budget; only what times out again (or fails then) is reported
+    redo = [c for c in crashes if c[1] == -999]
+    if redo:
+        byid = dict(cases)
+        keep = [c for c in crashes if c[1] != -999]
+        for cid, rc, err in redo[:max_timeouts]:
+            rc1, out1, err1 = run_harness(harness, byid[cid], timeout=max(4 * per_case_timeout, 240), asan=asan, env=env)
+            m, cs = split_cases(out1)
+            M = M or m
+            allc.update(cs)
+            if rc1 != 0:
+                keep.append((cid, rc1, (err1 if len(err1) <= 6000 else err1[:2500] + "\n[...]\n" + err1[-3500:])))
+        crashes = keep + redo[max_timeouts:]
     return M, allc, crashes
